@@ -226,9 +226,12 @@ func (rewr Rewrite) Rewrite(r *http.Request, repl *caddy.Replacer) bool {
 			// recompute; new path contains a query string
 			var injectedQuery string
 			newPath, injectedQuery = before, after
-			// don't overwrite explicitly-configured query string
+			// don't overwrite explicitly-configured query string;
+			// the injected query is the result of placeholder
+			// replacements already, so it is used as-is: expanding
+			// it again would evaluate placeholders in request input
 			if query == "" {
-				query = injectedQuery
+				newQuery = injectedQuery
 			}
 		}
 
